@@ -96,4 +96,48 @@ def scatter2 : List (List Nat) → List Nat → List Int → List Nat → Except
 /-- `M[:, :-1]` -/
 def dropLastCol (M : List (List Nat)) : List (List Nat) := M.map List.dropLast
 
+/-! ### NumPy idioms of `find_largest_size_bounded_curvature`
+  A 2-D array is the list of its rows; the definitions below read it as a RECTANGULAR array whose number of columns is the
+  length of its first row (the obligations assume square matrices). -/
+
+/-- number of columns of a 2-D array -/
+def ncols (K : List (List Nat)) : Nat :=
+  match K with
+  | [] => 0
+  | r :: _ => r.length
+
+/-- column `j` of a 2-D array -/
+def column (K : List (List Nat)) (j : Nat) : List Nat := K.map (fun r => r.getD j 0)
+
+/-- `np.sum(K < d, axis=0)`: per column, the number of entries `< d` -/
+def colCountLt (K : List (List Nat)) (d : Nat) : List Nat :=
+  (List.range (ncols K)).map fun j => (column K j).countP (fun x => decide (x < d))
+
+/-- `np.sum(np.ma.masked_less(K, d), axis=0).data`: per column, the sum of the entries that are not masked (`≥ d`); a fully
+    masked column has data `0` -/
+def colSumGe (K : List (List Nat)) (d : Nat) : List Nat :=
+  (List.range (ncols K)).map fun j => ((column K j).filter (fun x => decide (d ≤ x))).sum
+
+/-- `np.any(K[np.triu_indices_from(K, 1)] < d)`: is some entry strictly above the diagonal `< d` -/
+def anyUpperLt (K : List (List Nat)) (d : Nat) : Bool :=
+  (List.range K.length).any fun i => (List.range' (i + 1) (ncols K - (i + 1))).any fun j => decide ((K.getD i []).getD j 0 < d)
+
+/-- index of the first minimum -/
+def argminFrom : List Int → Nat → Int → Nat → Nat
+  | [], _, _, bi => bi
+  | x :: xs, k, best, bi => if x < best then argminFrom xs (k + 1) x k else argminFrom xs (k + 1) best bi
+
+/-- `np.argmin(v)` of a 1-D integer array: the index of the FIRST minimum; `ValueError` on an empty array -/
+def npArgmin : List Int → Except PyErr Nat
+  | [] => .error PyErr.valueError
+  | x :: xs => .ok (argminFrom xs 1 x 0)
+
+/-- `np.delete(K, r, axis=0)` for `r ≥ 0` -/
+def deleteRow (K : List (List Nat)) (r : Nat) : Except PyErr (List (List Nat)) :=
+  if r < K.length then .ok (K.eraseIdx r) else .error PyErr.indexError
+
+/-- `np.delete(K, r, axis=1)` for `r ≥ 0` -/
+def deleteCol (K : List (List Nat)) (r : Nat) : Except PyErr (List (List Nat)) :=
+  if r < ncols K then .ok (K.map fun row => row.eraseIdx r) else .error PyErr.indexError
+
 end PersimVerif.SrcNp
